@@ -528,6 +528,27 @@ func GenCase(r *rand.Rand, o GenOpts) Case {
 		}
 	}
 	nops := 3 + r.Intn(o.MaxOps)
+	if useSubs && r.Intn(6) == 0 {
+		// a context-bound waiter that is served by a match, then another waiter on the same state
+		// alone, then the first one's context ends: the second must still be woken
+		x := r.Intn(n)
+		y := r.Intn(n)
+		k := nextId
+		nextId++
+		ctxs = append(ctxs, k)
+		kind := []string{"when", "whennot"}[r.Intn(2)]
+		first, second := "add", "remove"
+		if kind == "whennot" {
+			first, second = "remove", "add"
+			lines = append(lines, fmt.Sprintf("add %d", x))
+		}
+		lines = append(lines, "ctx new", fmt.Sprintf("sub %s:%d:%d", kind, x, k),
+			fmt.Sprintf("%s %d", first, x), fmt.Sprintf("%s %d", second, x),
+			fmt.Sprintf("sub %s:%d:-", kind, x), fmt.Sprintf("ctx cancel %d", k),
+			fmt.Sprintf("add %d", y), fmt.Sprintf("%s %d", first, x))
+		tag += "+ctxserved"
+		qhint += 5
+	}
 	for i := 0; i < nops; i++ {
 		if useSubs && r.Float64() < 0.45 {
 			switch {
